@@ -153,6 +153,8 @@ def lon_specs(tier):
     # more than ten arrays: files 0.npy .. 11.npy must come back in numeric, not lexical, order
     out.append([{'dtype': 'float64', 'shape': [300, 300], 'fill': 'ramp', 'layout': 'C'}, {'dtype': 'uint8', 'shape': [100000], 'fill': 'ramp', 'layout': 'C'}])
     out.append([{'dtype': 'int64', 'shape': [1], 'fill': 'ramp', 'layout': 'C'} if i % 2 else {'dtype': 'float32', 'shape': [i], 'fill': 'ramp', 'layout': 'C'} for i in range(12)])
+    # one more decimal digit in the index than any fixed-width file name is likely to allow for: 10001 arrays, neighbours differ in shape
+    out.append([{'dtype': 'int16', 'shape': [i % 3 + 1], 'fill': 'ramp', 'layout': 'C'} for i in range(10001)])
     return out
 
 
@@ -358,7 +360,37 @@ def check_value(cname, idx, v, base):
         r2 = same(exp, again)
         if r2:
             out.append(('modifying a loaded value in place changed the stored result', r2))
+    else:
+        try:
+            raw = t2.value
+        except Exception:  # noqa
+            raw = None
+        if isinstance(raw, (list, dict)) and _pollute(raw):
+            # (e.g. a downstream task that sorts / extends its input in place): a later chain still loads what run returned
+            try:
+                again = materialise(cname, chain()[name].value)
+                r2 = same(exp, again)
+            except Exception as e:  # noqa
+                r2 = f'{type(e).__name__}: {e}'
+            if r2:
+                out.append(('modifying a loaded value in place changed what a later chain loads', r2))
     return out
+
+
+def _pollute(o):
+    """change every container of a JSON-like value in place; -> whether anything could be changed"""
+    if isinstance(o, list):
+        for x in o:
+            _pollute(x)
+        o.append('POLLUTED')
+        o.reverse()
+        return True
+    if isinstance(o, dict):
+        for x in list(o.values()):
+            _pollute(x)
+        o['POLLUTED'] = 1
+        return True
+    return False
 
 
 def _job(args):
